@@ -167,8 +167,10 @@ func calculateExecutionType(
 		return unifiedT
 
 	case base.OPTIONAL_UNIFY:
-		m.evaluatedObjectT.AppendVariant(*base.MakeNil())
-		unifiedT := base.MakeUnifiedT(m.evaluatedObjectT.GetVariants())
+		// the element types and nil; the receiver itself does not gain a variant
+		variants := append([]base.T{}, m.evaluatedObjectT.GetVariants()...)
+		variants = append(variants, *base.MakeNil())
+		unifiedT := base.MakeUnifiedT(variants)
 
 		return unifiedT
 
